@@ -526,6 +526,10 @@ HISTORY_MENU = [
     ("query", [("Query.me().fields(UserFields.best_friend(with_kind=Kind.A).fields(UserFields.id))", "me { bestFriend(withKind: A) { id } }", set())]),
     ("query", [("Query.user_by_id(user_id='1').fields(UserFields.posts().fields(PostFields.title(upper=True).alias('shout')))", 'userById(userId: "1") { posts { shout: title(upper: true) } }', set())]),
     ("query", [("Query.user_by_id(user_id='1').fields(UserFields.posts().fields(PostFields.title(upper=True)))", 'userById(userId: "1") { posts { title(upper: true) } }', set())]),
+    # input-object arguments: equal shape, other values / other instance
+    ("query", [("Query.users(ids=['1'], filter=Filter(name='x', kind_of=Kind.B)).fields(UserFields.id)", 'users(ids: ["1"], filter: {name: "x", kindOf: B}) { id }', set())]),
+    ("query", [("Query.users(ids=['1'], filter=Filter(name='y')).fields(UserFields.id)", 'users(ids: ["1"], filter: {name: "y"}) { id }', set())]),
+    ("query", [("Query.users(ids=['2'], filter=Filter(nested=Filter(name='z'))).fields(UserFields.user_name)", 'users(ids: ["2"], filter: {nested: {name: "z"}}) { userName }', set())]),
 ]
 
 
@@ -567,60 +571,65 @@ def main(tier):
                 distinct.add(res["doc"]["query"])
             for clause, detail in res["problems"]:
                 rep.violation(clause, feats, detail, dict(desc, sent=res["doc"]))
-    # ---- histories: explicit-state BFS, states = snapshot of the shared class-level field objects
+    # ---- histories: explicit-state BFS, states = snapshot of everything in the package that can carry state between operations
     depth = 2 if tier == "quick" else 3
-    hroot = genpkg.scratch_dir("verif-c14-hist-")
-    hst, hpkg = pool.run_forked(lambda _: genpkg.generate(hroot, SCHEMA, None, {"enable_custom_operations": True})[0], None, timeout=300)
-    if hst != "ok":
-        rep.violation("harness_history", [], str(hpkg)[:300], {"stage": "pregenerate"})
-    PRE = (hroot, hpkg)
-    full_depth = 2   # every history of length < full_depth is expanded whatever state it leads to; beyond, states are de-duplicated by the snapshot
-    base_st, base = pool.run_forked(evaluate, dict(options={}, ops=HISTORY_MENU, history=[], check_documents=False, pregenerated=PRE))
-    # the fresh document of each menu entry must itself come from a fresh process
-    fresh_cases = [dict(options={}, ops=[e], history=[], check_documents=False, pregenerated=PRE) for e in HISTORY_MENU]
-    fresh = pool.run_cases(evaluate, fresh_cases, timeout=300)
-    fresh_docs = [r["results"][0]["doc"] if st == "ok" and r["status"] == "ok" else None for st, r in fresh]
-    seen_states = {}
-    frontier = [[]]
     states = transitions = 0
-    for d in range(depth + 1):
-        hcases = [dict(options={}, ops=HISTORY_MENU, history=[HISTORY_MENU[i] for i in h], check_documents=False, pregenerated=PRE) for h in frontier]
-        hres = pool.run_cases(evaluate, hcases, timeout=300)
-        nxt = []
-        for h, (st, r) in zip(frontier, hres):
-            if st != "ok" or r["status"] != "ok":
-                rep.violation("harness_history", [], str(r)[:300], {"history": h})
-                continue
-            key = json.dumps(r["state"], sort_keys=True)
-            if key in seen_states and len(h) >= full_depth:
-                continue   # (histories shorter than full_depth are all expanded: no reliance on the state abstraction there)
-            if key not in seen_states:
-                seen_states[key] = h
-                states += 1
-            # NOTE: the ops of the menu are evaluated one after another in this state; only the FIRST evaluation happens exactly in state(h).
-            # Every menu entry is therefore evaluated as the first op of its own run:
-            for i, e in enumerate(HISTORY_MENU):
-                nxt.append(h + [i])
-        # evaluate each (h, e) as "history h then e" in one process = the last element of h+[i] is the probe
-        probes = [dict(options={}, ops=[HISTORY_MENU[p[-1]]], history=[HISTORY_MENU[i] for i in p[:-1]], check_documents=False, pregenerated=PRE) for p in nxt]
-        pres = pool.run_cases(evaluate, probes, timeout=300)
-        for p, (st, r) in zip(nxt, pres):
-            transitions += 1
-            if st != "ok" or r["status"] != "ok":
-                rep.violation("harness_history", [], str(r)[:300], {"history": p})
-                continue
-            doc = r["results"][0]["doc"]
-            want = fresh_docs[p[-1]]
-            if doc != want:
-                hist = [HISTORY_MENU[i][1][0][0] for i in p[:-1]]
-                hfeats = {"history"} | ({"history:alias_on_class_attribute"} if any(".alias(" in x and ("Fields.id.alias" in x or "Fields.user_name.alias" in x or "Interface.id.alias" in x) for x in hist) else set())
-                rep.violation("document_depends_on_history", hfeats, f"after {hist} the expression {HISTORY_MENU[p[-1]][1][0][0]} builds {json.dumps(doc)[:250]} instead of {json.dumps(want)[:250]}",
-                              {"history": hist, "expression": HISTORY_MENU[p[-1]][1][0][0]})
-        frontier = [p for p in nxt] if d < depth else []
-        # BFS continues only from histories that lead to NEW states (dedup happens at the top of the next round)
-        if d >= depth:
-            break
-    shutil.rmtree(hroot, ignore_errors=True)
+    hist_cfgs = [({}, depth), ({"opentelemetry_client": True}, 1), ({"async_client": False, "opentelemetry_client": True}, 1)] + ([({"async_client": False}, 1)] if tier != "quick" else [])
+    for hopts, depth in hist_cfgs:
+        states0, transitions0 = states, transitions
+        hroot = genpkg.scratch_dir("verif-c14-hist-")
+        hst, hpkg = pool.run_forked(lambda _: genpkg.generate(hroot, SCHEMA, None, dict({"enable_custom_operations": True}, **hopts))[0], None, timeout=300)
+        if hst != "ok":
+            rep.violation("harness_history", [], str(hpkg)[:300], {"stage": "pregenerate"})
+        PRE = (hroot, hpkg)
+        full_depth = 2   # every history of length < full_depth is expanded whatever state it leads to; beyond, states are de-duplicated by the snapshot
+        base_st, base = pool.run_forked(evaluate, dict(options=dict(hopts), ops=HISTORY_MENU, history=[], check_documents=False, pregenerated=PRE))
+        # the fresh document of each menu entry must itself come from a fresh process
+        fresh_cases = [dict(options=dict(hopts), ops=[e], history=[], check_documents=False, pregenerated=PRE) for e in HISTORY_MENU]
+        fresh = pool.run_cases(evaluate, fresh_cases, timeout=300)
+        fresh_docs = [r["results"][0]["doc"] if st == "ok" and r["status"] == "ok" else None for st, r in fresh]
+        seen_states = {}
+        frontier = [[]]
+        for d in range(depth + 1):
+            hcases = [dict(options=dict(hopts), ops=HISTORY_MENU, history=[HISTORY_MENU[i] for i in h], check_documents=False, pregenerated=PRE) for h in frontier]
+            hres = pool.run_cases(evaluate, hcases, timeout=300)
+            nxt = []
+            for h, (st, r) in zip(frontier, hres):
+                if st != "ok" or r["status"] != "ok":
+                    rep.violation("harness_history", [], str(r)[:300], {"history": h})
+                    continue
+                key = json.dumps(r["state"], sort_keys=True)
+                if key in seen_states and len(h) >= full_depth:
+                    continue   # (histories shorter than full_depth are all expanded: no reliance on the state abstraction there)
+                if key not in seen_states:
+                    seen_states[key] = h
+                    states += 1
+                # NOTE: the ops of the menu are evaluated one after another in this state; only the FIRST evaluation happens exactly in state(h).
+                # Every menu entry is therefore evaluated as the first op of its own run:
+                for i, e in enumerate(HISTORY_MENU):
+                    nxt.append(h + [i])
+            # evaluate each (h, e) as "history h then e" in one process = the last element of h+[i] is the probe
+            probes = [dict(options=dict(hopts), ops=[HISTORY_MENU[p[-1]]], history=[HISTORY_MENU[i] for i in p[:-1]], check_documents=False, pregenerated=PRE) for p in nxt]
+            pres = pool.run_cases(evaluate, probes, timeout=300)
+            for p, (st, r) in zip(nxt, pres):
+                transitions += 1
+                if st != "ok" or r["status"] != "ok":
+                    rep.violation("harness_history", [], str(r)[:300], {"history": p})
+                    continue
+                doc = r["results"][0]["doc"]
+                want = fresh_docs[p[-1]]
+                if doc != want:
+                    hist = [HISTORY_MENU[i][1][0][0] for i in p[:-1]]
+                    hfeats = {"history"} | {f"cfg:{k}={v}" for k, v in hopts.items()} | ({"history:alias_on_class_attribute"} if any(".alias(" in x and ("Fields.id.alias" in x or "Fields.user_name.alias" in x or "Interface.id.alias" in x) for x in hist) else set())
+                    rep.violation("document_depends_on_history", hfeats, f"after {hist} the expression {HISTORY_MENU[p[-1]][1][0][0]} builds {json.dumps(doc)[:250]} instead of {json.dumps(want)[:250]}",
+                                  {"history": hist, "expression": HISTORY_MENU[p[-1]][1][0][0]})
+            frontier = [p for p in nxt] if d < depth else []
+            # BFS continues only from histories that lead to NEW states (dedup happens at the top of the next round)
+            if d >= depth:
+                break
+        shutil.rmtree(hroot, ignore_errors=True)
+
+    depth = hist_cfgs[0][1]
     rep.sample({"expression": ops[5][1][0][0], "equivalent_graphql": ops[5][1][0][1]})
     rep.sample({"two_top_level": [e[0] for e in ops[-3][1]]})
     rep.sample({"history_menu": [m[1][0][0] for m in HISTORY_MENU[:4]]})
